@@ -30,6 +30,9 @@ class ModelMeta(SingleType):
     def __eq__(self, other):
         if isinstance(other, dict):
             return self.type == other
+        elif isinstance(other, ModelMeta):
+            # Different models are never equal even if their fields are the same
+            return self.index == other.index
         else:
             return super().__eq__(other)
 
